@@ -201,6 +201,9 @@ structure Fn (K : Type) where
   /-- `allclose(p, q, atol=ERROR_TOLERANCE)` on Cartesian triples (on exact direction vectors:
       same direction) -/
   samePt : V3 K → V3 K → Bool
+  /-- the test of `_unique_points`: Euclidean distance over the norm of the second point below
+      `ERROR_TOLERANCE` (on exact direction vectors: same direction) -/
+  nearPt : V3 K → V3 K → Bool
 
 section geom
 variable {K : Type} [Add K] [Sub K] [Mul K] [Div K] [Neg K] [OfNat K 0] [OfNat K 1]
@@ -272,6 +275,10 @@ def normalizeBy (sqrt : K → K) (v : V3 K) : V3 K :=
   let n := sqrt (dot v v)
   ⟨v.x / n, v.y / n, v.z / n⟩
 
+/-- the float instance of `Fn.nearPt` -/
+def nearPtBy (sqrt : K → K) [LT K] [DecidableLT K] (tol : K) (p q : V3 K) : Bool :=
+  decide (sqrt (dot (vsub p q) (vsub p q)) / sqrt (dot q q) < tol)
+
 /-- the float instance of `Fn.samePt`: componentwise `isclose` (numpy's default rtol inside `close`) -/
 def samePtBy (close : K → K → Bool) (p q : V3 K) : Bool :=
   close p.x q.x && close p.y q.y && close p.z q.z
@@ -279,18 +286,22 @@ def samePtBy (close : K → K → Bool) (p q : V3 K) : Bool :=
 /-- `p` (on the great circle of `a,b`) lies between `a` and `b` -/
 def between (F : Fn K) (a b p : V3 K) : Bool :=
   let n := cross a b
-  decide (-F.eps ≤ dot (cross a p) n) && decide (-F.eps ≤ dot (cross p b) n)
+  -- the slack is relative to the arc (both sides scale with ‖a × b‖²): edges of any length
+  let slack := F.eps * dot n n
+  decide (-slack ≤ dot (cross a p) n) && decide (-slack ≤ dot (cross p b) n)
 
 /-- `p` is on the great circle of `a,b` and between them -/
 def onGca (F : Fn K) (a b p : V3 K) : Bool :=
-  decide (F.abs (dot (cross a b) p) ≤ F.eps) && between F a b p
+  let n := cross a b
+  decide (F.abs (dot n p) ≤ F.eps * F.sqrt (dot n n)) && between F a b p
 
 /-- `gca_gca_intersection(ref, edge)` -/
 def arcMeet (F : Fn K) (w0 w1 v0 v1 : V3 K) : List (V3 K) :=
   let nw := cross w0 w1
   let nv := cross v0 v1
   let c := cross nw nv
-  if F.abs c.x ≤ F.eps ∧ F.abs c.y ≤ F.eps ∧ F.abs c.z ≤ F.eps then
+  let par := F.eps * F.sqrt (dot nw nw * dot nv nv)     -- relative: the two planes coincide
+  if F.abs c.x ≤ par ∧ F.abs c.y ≤ par ∧ F.abs c.z ≤ par then
     (if onGca F w0 w1 v0 then [v0] else []) ++ (if onGca F w0 w1 v1 then [v1] else [])
   else
     let x1 := F.normalize c
@@ -302,7 +313,7 @@ def arcMeet (F : Fn K) (w0 w1 v0 v1 : V3 K) : List (V3 K) :=
 def uniquePts (F : Fn K) : List (V3 K) → List (V3 K)
   | [] => []
   | p :: ps => let r := uniquePts F ps
-               if r.any (F.samePt p) then r else p :: r
+               if r.any (F.nearPt p) then r else p :: r
 
 /-- `_check_intersection(ref_edge, edges)`; `True` is returned as `1` -/
 def checkInt (F : Fn K) (pole ref : V3 K) (edges : List (Edge K)) : Nat :=
@@ -421,11 +432,17 @@ def arcApex (a b : P3) : List P3 :=
 def boundary (k : Nat) (corners : List P3) : List P3 :=
   (cyc corners).flatMap fun e => arcSamples k e.1 e.2 ++ arcApex e.1 e.2
 
-/-- smallest of the left-turn determinants `(pᵢ × pᵢ₊₁)·pole` of a counter-clockwise face:
-    positive ⇔ the pole is strictly inside the (convex) face; its size is the margin -/
+/-- smallest of the normalised left-turn determinants `(pᵢ × pᵢ₊₁)·pole / ‖pᵢ × pᵢ₊₁‖` of a
+    counter-clockwise face: positive ⇔ the pole is strictly inside the (convex) face; its size is the
+    (sine of the) angular margin -/
 def poleMargin (north : Bool) (corners : List P3) : Float :=
   let pole : P3 := ⟨0, 0, if north then 1 else -1⟩
-  (cyc corners).foldl (fun m e => let d := dot (cross e.1 e.2) pole; if d < m then d else m) 2
+  (cyc corners).foldl (fun m e =>
+    -- unit normal of the edge's plane as `a × (b − a)` (no cancellation for short edges): the value
+    -- is the sine of the pole's distance from the edge's great circle, whatever the edge length
+    let n := cross e.1 (vsub e.2 e.1)
+    let d := dot n pole / Float.sqrt (dot n n)
+    if d < m then d else m) 2
 
 def isPoleCorner (north : Bool) (p : P3) : Bool :=
   p.x * p.x + p.y * p.y < 1e-24 && (if north then 0 < p.z else p.z < 0)
